@@ -63,6 +63,7 @@ theorem unionTy_all_unit (fname : Str → Str) (vname : J → Str) (alts : List 
     | const v => intro u hu; simp [unionTy] at hu; rcases hu with rfl | hu; exact ⟨v, rfl⟩; exact hr u hu
     | null => simpa [unionTy] using hr
     | sch s => have := h (.sch s) (by simp); simp [Alt.isConst, Alt.isNullAlt] at this
+    | free k => have := h (.free k) (by simp); simp [Alt.isConst, Alt.isNullAlt] at this
 
 /-- a union of `const` alternatives refuses EVERY string — its own declared values included -/
 theorem const_union_refuses_strings (fname : Str → Str) (vname : J → Str) (alts : List Alt)
